@@ -33,8 +33,31 @@ class DatabaseError(Exception):
         self.sql_text = sql_text
 
 
-class CountingRows:
-    """Mixin state for iteration payloads that count how often they are iterated."""
+class InjectedFault(Exception):
+    """Raised by harness payloads / Processor hooks when a fault has been armed (fault-injection steps of C07 / C10)."""
+
+
+# rows that may still be pulled from counting leaf payloads before the next pull raises InjectedFault (None = disarmed)
+FAULT = {"left": None, "fired": False}
+
+
+def arm_fault(n):
+    FAULT["left"] = n
+    FAULT["fired"] = False
+
+
+def disarm_fault():
+    FAULT["left"] = None
+
+
+def _tick():
+    n = FAULT["left"]
+    if n is not None:
+        if n <= 0:
+            FAULT["left"] = None
+            FAULT["fired"] = True
+            raise InjectedFault("injected fault while a leaf payload was being iterated")
+        FAULT["left"] = n - 1
 
 
 def make_counting_sequence(rows):
@@ -49,6 +72,7 @@ def make_counting_sequence(rows):
         def __iter__(self):
             self.iter_starts += 1
             for r in self.rows:
+                _tick()
                 self.rows_pulled += 1
                 yield r
 
@@ -76,6 +100,7 @@ def make_custom_payload(rows):
         def __iter__(self):
             self.iter_starts += 1
             for r in self._rows:
+                _tick()
                 self.rows_pulled += 1
                 yield r
 
@@ -106,6 +131,7 @@ def make_counting_mapping(cols, rows):
         def __iter__(self):
             self.iter_starts += 1
             for r in self.rows.values():
+                _tick()
                 self.rows_pulled += 1
                 yield r
 
